@@ -39,3 +39,190 @@ Contract(
     note="concrete contract of the body; callers use the abstract contract (a function of the pool's ghost occupancy version)",
     props=("C13", "C10", "C04"),
 )
+
+
+# =================================================================================================
+# WorkerPool.step : the body against the abstract contract the simulator proofs use (C03 / C05)
+# =================================================================================================
+from contracts.c_workers import wf_worker, _placed_tasks_wf, wap, wpp, wpt, step_finishes, step_rel, TaskList, PT, PF, closed_wmaps  # noqa: E402
+from contracts.c_tasks import TASK, wf_task, some, get, RUNNING  # noqa: E402
+from contracts.c_utils import ETy, us  # noqa: E402
+
+WORKER = "workers.workers.Worker"
+
+
+def n_workers(h, p):
+    return h.c_len(WorkerMap, pool_workers(h, p))
+
+
+def wf_pool_parts(h, p):
+    """Pool invariant: every worker satisfies the ledger invariant WF_W (and the Task invariant for its residents); the
+    workers are distinct objects with separate profile maps; a task is resident on at most one worker (C01)."""
+    k, k2, t = z3.Int(H.fresh_name("wp_k")), z3.Int(H.fresh_name("wp_k2")), z3.Int(H.fresh_name("wp_t"))
+    n = n_workers(h, p)
+    wk, wk2 = worker_at(h, p, k), worker_at(h, p, k2)
+    return {
+        "workers_wf": z3.ForAll([k], z3.Implies(z3.And(0 <= k, k < n), z3.And(wk != 0, wf_worker(h, wk), _placed_tasks_wf(h, wk), wap(h, wk) != wpp(h, wk))), patterns=[wk]),
+        "workers_separate": z3.ForAll(
+            [k, k2],
+            z3.Implies(
+                z3.And(0 <= k, k < k2, k2 < n),
+                z3.And(wk != wk2, wap(h, wk) != wap(h, wk2), wap(h, wk) != wpp(h, wk2), wpp(h, wk) != wap(h, wk2), wpp(h, wk) != wpp(h, wk2), wpt(h, wk) != wpt(h, wk2)),
+            ),
+            patterns=[z3.MultiPattern(wk, wk2)],
+        ),
+        "resident_on_one_worker": z3.ForAll(
+            [k, k2, t],
+            z3.Implies(z3.And(0 <= k, k < k2, k2 < n), z3.Not(z3.And(h.d_dom(PT, wpt(h, wk), t), h.d_dom(PT, wpt(h, wk2), t)))),
+            patterns=[z3.MultiPattern(h.d_dom(PT, wpt(h, wk), t), h.d_dom(PT, wpt(h, wk2), t))],
+        ),
+    }
+
+
+def _pstep_requires(c):
+    out = dict(wf_pool_parts(c.pre, c.arg("self")))
+    out["step_nonneg"] = us(c.arg("step_size")) >= 0
+    return out
+
+
+def _pstep_mod(c):
+    out = {
+        c.pre.fld_arr(TASK, "_remaining_time")[0]: ANY,
+        c.pre.fld_arr(TASK, "_last_step_time")[0]: ANY,
+        c.pre.fld_arr("workload.strategy.ExecutionStrategy", "_runtime")[0]: ANY,
+    }
+    for part in ("len", "keys", "idx", "dom", "val"):
+        out[c.pre.carr(PF, part)[0]] = ANY
+    return out
+
+
+def _collected_ok(c, h, lst, upto):
+    """what the abstract contract of WorkerPool.step promises about every returned task"""
+    j = z3.Int(H.fresh_name("pc_j"))
+    t = h.l_elem(TaskList, lst, j)
+    rem0 = c.pre.rd(t, TASK, "_remaining_time")[1]
+    rem1 = h.rd(t, TASK, "_remaining_time")[1]
+    parts = {
+        "old_object": z3.And(t > 0, t < c.alloc0),
+        "was_running": c.pre.rd(t, TASK, "_state")[1] == RUNNING,
+        "now_zero": z3.And(some(rem1), us(get(rem1)) == 0),
+        "was_positive": z3.And(some(rem0), us(get(rem0)) > 0),
+    }
+    return {nm: z3.ForAll([j], z3.Implies(z3.And(0 <= j, j < upto), g), patterns=[h.l_elem(TaskList, lst, j)]) for nm, g in parts.items()}
+
+
+def _pstep_inv(c, L):
+    p = c.arg("self")
+    h = c.post
+    n = n_workers(c.pre, p)
+    k, t = z3.Int(H.fresh_name("pi_k")), z3.Int(H.fresh_name("pi_t"))
+    wk = worker_at(c.pre, p, k)
+    res = L.var("completed_tasks")
+    rem = lambda hh: hh.rd(t, TASK, "_remaining_time")[1]
+    last = lambda hh: hh.rd(t, TASK, "_last_step_time")[1]
+    pf_same = lambda d: z3.And(*[z3.Select(h.carr(PF, part)[1], d) == z3.Select(c.pre.carr(PF, part)[1], d) for part in ("len", "keys", "idx", "dom", "val")])
+    return {
+        "list_fresh": res >= c.alloc0,
+        **{"collected." + nm: g for nm, g in _collected_ok(c, h, res, h.c_len(TaskList, res)).items()},
+        # the residents of the workers still to be stepped are untouched, and so are those workers' profile maps
+        "later_residents_untouched": z3.ForAll(
+            [k, t], z3.Implies(z3.And(L.i <= k, k < n, c.pre.d_dom(PT, wpt(c.pre, wk), t)), z3.And(rem(h) == rem(c.pre), last(h) == last(c.pre))), patterns=[z3.MultiPattern(wk, rem(h))]
+        ),
+        "later_profile_maps_untouched": z3.ForAll([k], z3.Implies(z3.And(L.i <= k, k < n), z3.And(pf_same(wap(c.pre, wk)), pf_same(wpp(c.pre, wk)))), patterns=[wk]),
+        "nonresidents_untouched": z3.ForAll(
+            [t],
+            z3.Implies(
+                z3.And(0 < t, t < c.alloc0, z3.ForAll([k], z3.Implies(z3.And(0 <= k, k < n), z3.Not(c.pre.d_dom(PT, wpt(c.pre, wk), t))), patterns=[wk])),
+                z3.And(rem(h) == rem(c.pre), last(h) == last(c.pre)),
+            ),
+            patterns=[rem(h)],
+        ),
+    }
+
+
+def _pstep_loop_mod(c):
+    fr = c.run.frames[-1].env
+    res = fr.get("completed_tasks")
+    out = _pstep_mod(c)
+    out[c.pre.carr(TaskList, "len")[0]] = [res.z]
+    out[c.pre.carr(TaskList, "elem")[0]] = [res.z]
+    return out
+
+
+def _pstep_lemmas(c, L, phase):
+    if phase != "end":
+        return []
+    p = c.arg("self")
+    h0, h1 = L.iter_heap, c.post  # the state at the start of this iteration / after its body
+    res = L.var("completed_tasks")
+    w = L.var("worker")
+    now, d = c.arg("current_time"), c.arg("step_size")
+    j = z3.Int(H.fresh_name("pl_j"))
+    old_t, new_t = h0.l_elem(TaskList, res, j), h1.l_elem(TaskList, res, j)
+    on_w = lambda t: c.pre.d_dom(PT, wpt(c.pre, w), t)
+    return [
+        Step("this_worker_is_ith", z3.And(0 <= L.i, L.i < n_workers(c.pre, p), w == worker_at(c.pre, p, L.i))),
+        # a task collected earlier finished on an earlier worker: it is not resident on this one (its remaining time is 0,
+        # the residents of this worker were untouched and a collected task had a positive remaining time)
+        Step("collected_not_on_this_worker", z3.ForAll([j], z3.Implies(z3.And(0 <= j, j < h0.c_len(TaskList, res)), z3.Not(on_w(old_t))), patterns=[old_t])),
+        Step("old_elements_kept", z3.ForAll([j], z3.Implies(z3.And(0 <= j, j < h0.c_len(TaskList, res)), new_t == old_t), patterns=[new_t])),
+        Step("new_elements_on_this_worker", z3.ForAll([j], z3.Implies(z3.And(h0.c_len(TaskList, res) <= j, j < h1.c_len(TaskList, res)), on_w(new_t)), patterns=[new_t])),
+        Step("old_elements_still_zero", z3.ForAll([j], z3.Implies(z3.And(0 <= j, j < h0.c_len(TaskList, res)), z3.And(some(h1.rd(new_t, TASK, "_remaining_time")[1]), us(get(h1.rd(new_t, TASK, "_remaining_time")[1])) == 0)), patterns=[new_t])),
+        Step("new_elements_finished_here", z3.ForAll([j], z3.Implies(z3.And(h0.c_len(TaskList, res) <= j, j < h1.c_len(TaskList, res)), step_finishes(h0, new_t, now, d)), patterns=[new_t])),
+        Step("new_elements_now_zero", z3.ForAll([j], z3.Implies(z3.And(h0.c_len(TaskList, res) <= j, j < h1.c_len(TaskList, res)), z3.And(some(h1.rd(new_t, TASK, "_remaining_time")[1]), us(get(h1.rd(new_t, TASK, "_remaining_time")[1])) == 0)), patterns=[new_t])),
+    ]
+
+
+def _pstep_ens(c):
+    from contracts.c_simulator import _pool_step_ens
+
+    p = c.arg("self")
+    n = n_workers(c.pre, p)
+    k, t = z3.Int(H.fresh_name("pe_k")), z3.Int(H.fresh_name("pe_t"))
+    wk = worker_at(c.pre, p, k)
+    rem = lambda hh: hh.rd(t, TASK, "_remaining_time")[1]
+    last = lambda hh: hh.rd(t, TASK, "_last_step_time")[1]
+    return {
+        # exactly the text of the abstract contract (c_simulator) that Simulator.__step / simulate are verified against
+        "pool_step.abstract_contract_holds": _pool_step_ens(c),
+        # a task that is resident on no worker of the pool is not touched
+        "pool_step.nonresidents_untouched": z3.ForAll(
+            [t],
+            z3.Implies(
+                z3.And(0 < t, t < c.alloc0, z3.ForAll([k], z3.Implies(z3.And(0 <= k, k < n), z3.Not(c.pre.d_dom(PT, wpt(c.pre, wk), t))), patterns=[wk])),
+                z3.And(rem(c.post) == rem(c.pre), last(c.post) == last(c.pre)),
+            ),
+            patterns=[rem(c.post)],
+        ),
+    }
+
+
+def closed_pool(c):
+    p = c.arg("self")
+    k = z3.Int(H.fresh_name("cp_k"))
+    wk = worker_at(c.pre, p, k)
+    t = z3.Int(H.fresh_name("cp_t"))
+    return Fact(
+        "heap.closed",
+        z3.And(
+            pool_workers(c.pre, p) < c.alloc0,
+            z3.ForAll([k], z3.Implies(z3.And(0 <= k, k < n_workers(c.pre, p)), z3.And(wk < c.alloc0, wpt(c.pre, wk) < c.alloc0, wap(c.pre, wk) < c.alloc0, wpp(c.pre, wk) < c.alloc0)), patterns=[wk]),
+            z3.ForAll([k, t], z3.Implies(z3.And(0 <= k, k < n_workers(c.pre, p), c.pre.d_dom(PT, wpt(c.pre, wk), t)), z3.And(0 < t, t < c.alloc0)), patterns=[c.pre.d_dom(PT, wpt(c.pre, wk), t)]),
+        ),
+    )
+
+
+Contract(
+    "workers.workers.WorkerPool.step#body",
+    params={"self": S_.WorkerPool.ty, "current_time": ETy, "step_size": ETy},
+    ret=TaskList,
+    requires=_pstep_requires,
+    modifies=_pstep_mod,
+    loops={0: Loop(inv=_pstep_inv, modifies=_pstep_loop_mod, lemmas=_pstep_lemmas)},
+    locals={"completed_tasks": TaskList},
+    ensures=_pstep_ens,
+    entry_facts=lambda c: [closed_pool(c)],
+    allocates=True,
+    note="the body of WorkerPool.step verified against the abstract contract that Simulator.__step / simulate use, under the pool invariant (every worker WF_W, residents well formed, a task resident on at most one worker)",
+    props=("C03", "C05", "C01"),
+)
